@@ -319,25 +319,38 @@ def register(R: Registry):
     # The same contract on tables of exactly 1 .. 6 rows (ids, parent ids and the row order stay symbolic: every legal table of that many
     # rows).  Everything whose trip count follows from the row count executes there -- doubling rounds, unrolled loops, index-array
     # gathers / scatters, a stable argsort -- so a body that is a NEW algorithm (for which no invariant can exist in advance) is decided:
-    # the clauses are quantifier-free at that size and a violated one is answered with a table.  The stack walk itself keeps its loop
-    # contract (recognised by the loop's form, whatever its ordinal), so the unchanged body is proved here exactly as above.
+    # the clauses are quantifier-free at that size and a violated one is answered with a table.  While the body still IS the stack walk
+    # (a `while` loop that pops a work list: the loop the contract above carries invariants for) the twin would only repeat that proof
+    # six times over ("the fixed-size twin proves nothing the symbolic registration does not; it decides the converse"), so it is
+    # registered for bodies without that loop.
+    if not has_stack_walk(f"{NORM}:sort_nodes_impl"):
+        R.add(
+            f"{NORM}:sort_nodes_impl",
+            prop="C05",
+            variants={fixed_name(m): (lambda S, m=m: setup(S, size=m)) for m in FIXED_SIZES},
+            requires=pre_clauses(lambda v: (v["topology"][0].arr, v["topology"][1].arr, v["topology"][0].nz())),
+            returns=impl_result,
+            ensures=[(nm, post(nm, witness_free=True)) for nm in posts],
+            options=dict(models=ext_C05.MODELS, hints={"exc/unexpected-AssertionError": single_root_hint}, allow_symbolic_unroll=True),
+            notes=FIXED_NOTE,
+        )
+
+
+def has_stack_walk(key):
+    """does the CURRENT text of the function contain the stack walk -- a `while` loop whose body pops a work list?  (read from the source,
+    whatever the locals are called; on any doubt: yes, which leaves the symbolic-size contract alone in charge)"""
     import ast as _ast
 
-    def is_stack_walk(node):
-        return isinstance(node, _ast.While)
+    from pyvc import extract
 
-    R.add(
-        f"{NORM}:sort_nodes_impl",
-        prop="C05",
-        variants={fixed_name(m): (lambda S, m=m: setup(S, size=m)) for m in FIXED_SIZES},
-        requires=pre_clauses(lambda v: (v["topology"][0].arr, v["topology"][1].arr, v["topology"][0].nz())),
-        returns=impl_result,
-        ensures=[(nm, post(nm, witness_free=True)) for nm in posts],
-        loops={"stack-walk": dict(invariant=INV, types={"s": ["int", "int"]}, modifies=["G"], applies=is_stack_walk,
-                                  at_exit=[("all-rows-numbered-when-the-stack-is-empty", after_loop)])},
-        options=dict(models=ext_C05.MODELS, ghost_after=GHOST, hints={"exc/unexpected-AssertionError": single_root_hint}, allow_symbolic_unroll=True),
-        notes=FIXED_NOTE,
-    )
+    try:
+        node, _, _ = extract.find(key)
+    except Exception:
+        return True
+    for w in _ast.walk(node):
+        if isinstance(w, _ast.While) and any(isinstance(c, _ast.Call) and isinstance(c.func, _ast.Attribute) and c.func.attr == "pop" for c in _ast.walk(w)):
+            return True
+    return False
 
 
 # =========================================================================== sort_nodes_ (table form), _sort_tree / sort_tree (tree form)
